@@ -10,7 +10,7 @@
 //!   C03 partitioner (partitioner.rs)   C04 ring (c04ring.rs)
 //!   C06 retry     (retry.rs)      C07 page      (page.rs)     C10 break   (brk.rs)
 //!   C12 route     (route.rs) + tablet (tablet.rs)              C14 evict   (evict.rs)
-//!   C13 spec      (spec.rs)                                    C15 learn   (c15learn.rs)
+//!   C13 spec      (spec.rs)                                    C15 learn   (c15learn.rs) + learnrf (c15refresh.rs)
 //!   C18 timestamp (timestamp.rs) + tsconn (tsconn.rs, one hooked connection)   C20 keyspace (keyspace.rs)
 //! Output line: a short summary (never compared with a model). A case that cannot reach its precondition (session
 //! build / pool fill on an overloaded machine) prints `e2e-skip <why>` and judges nothing - never an oracle failure.
@@ -22,6 +22,7 @@ pub mod brk;
 pub mod c10_samenode;
 pub mod c04ring;
 pub mod c15learn;
+pub mod c15refresh;
 pub mod common;
 pub mod evict;
 pub mod keyspace;
@@ -65,7 +66,10 @@ pub fn generate(pid: &str, rng: &mut Rng, tier: Tier, emit: &mut dyn FnMut(Strin
             c10_samenode::generate(rng, tier, emit);
         }
         Some("evict") => evict::generate(rng, tier, emit),
-        Some("learn") => c15learn::generate(rng, tier, emit),
+        Some("learn") => {
+            c15learn::generate(rng, tier, emit);
+            c15refresh::generate(rng, tier, emit);
+        }
         Some("keyspace") => keyspace::generate(rng, tier, emit),
         Some("page") => page::generate(rng, tier, emit),
         Some("partitioner") => partitioner::generate(rng, tier, emit),
@@ -95,6 +99,7 @@ pub fn run(_pid: &str, case: &str, ctx: &mut Ctx) -> String {
         "samenode" => c10_samenode::run(&words[2..], ctx),
         "evict" => evict::run(&words[2..], ctx),
         "learn" => c15learn::run(&words[2..], ctx),
+        "learnrf" => c15refresh::run(&words[2..], ctx),
         "keyspace" => keyspace::run(&words[2..], ctx),
         "page" => page::run(&words[2..], ctx),
         "partitioner" => partitioner::run(&words[2..], ctx),
